@@ -261,6 +261,17 @@ def fhist_check(case):
                     if not np.allclose(out, ref, rtol=0, atol=1e-10):
                         seen.setdefault("filter-definition:call-sequence", "n=%d: after calls with sampling intervals %r, %s(si=%r, corners %r) differs from its definition by %.3g"
                                         % (n, seq, typ, si, [b[0] / seq[0], b[1] / seq[0]], float(np.max(np.abs(out - ref)))))
+        # a frequency scale edited by its caller (as ibldsp.voltage.fk does with kscale[0]) must not change the next one
+        for si in (1.0, 0.5):
+            f1 = fourier.fscale(n, si)
+            f1[0] = 1e-6
+            f1 *= 1000
+            f2 = fourier.fscale(n, si)
+            ref = np.fft.fftfreq(n, si)
+            if n % 2 == 0:
+                ref[n // 2] = -ref[n // 2]
+            if not np.allclose(f2, ref, rtol=1e-12, atol=0):
+                seen.setdefault("fscale:shared-result", "fscale(%d, %r) returns an array altered by a previous caller" % (n, si))
     return Res(list(seen.items()), o="f", tr=ntr)
 
 
